@@ -128,6 +128,14 @@ func (c20) build(c *mon.Ctx) c20Case {
 			l = append(l, pts[(r.Intn(3)+j)%3])
 		}
 		cs.Input = strings.Join(l, "\n") + "\n"
+		switch r.Intn(6) {
+		case 0:
+			cs.Input = "# a comment line first\n" + cs.Input
+		case 1:
+			cs.Input = "\n\n" + cs.Input
+		case 2:
+			cs.Input = "m3,tg=x note=\"two\nlines\",f1=3i 1660000000000000000\n" + cs.Input
+		}
 	}
 	if r.Intn(8) == 0 {
 		cs.Input = "<none>"
